@@ -11,6 +11,8 @@ func init() { register("C37", "other", checkC37) }
 
 // textDerivation walks back from a string value to the received Query.String field and reports
 // every transformation on the way.
+var textDerivationCallers func(p *ssa.Parameter) []ssa.Value
+
 func textDerivation(v ssa.Value) (fromQuery bool, transforms []string) {
 	seen := map[ssa.Value]bool{}
 	var walk func(v ssa.Value)
@@ -21,6 +23,13 @@ func textDerivation(v ssa.Value) (fromQuery bool, transforms []string) {
 		}
 		seen[v] = true
 		switch x := v.(type) {
+		case *ssa.Parameter:
+			// a helper owned by handleConn: what handleConn passes for this parameter
+			if textDerivationCallers != nil {
+				for _, a := range textDerivationCallers(x) {
+					walk(a)
+				}
+			}
 		case *ssa.Call:
 			n := calleeName(&x.Call)
 			transforms = append(transforms, n)
@@ -73,12 +82,50 @@ func checkC37(c *Ctx, r *Report) {
 	if hc == nil {
 		return
 	}
+	// handleConn is taken together with the private helpers it owns (e.g. an extracted
+	// "look up or authorize" function): calls are searched in the family and a helper's parameter is
+	// resolved to the argument handleConn passes
+	fam := fnFamily(m, hc)
+	inFam := map[*ssa.Function]bool{}
+	for _, f := range fam {
+		inFam[f] = true
+	}
+	textDerivationCallers = func(p *ssa.Parameter) []ssa.Value {
+		fn := p.Parent()
+		if fn == hc || !inFam[fn] {
+			return nil
+		}
+		var out []ssa.Value
+		for i, q := range fn.Params {
+			if q != p {
+				continue
+			}
+			for _, f := range fam {
+				for _, wf := range withAnon(f) {
+					for _, call := range callsIn(wf) {
+						if g, _ := calleeOf(call.Common()); g == fn && i < len(call.Common().Args) {
+							out = append(out, call.Common().Args[i])
+						}
+					}
+				}
+			}
+		}
+		return out
+	}
+	defer func() { textDerivationCallers = nil }()
+	famCalls := func(name string) []ssa.CallInstruction {
+		var out []ssa.CallInstruction
+		for _, f := range fam {
+			out = append(out, findCalls(f, name)...)
+		}
+		return out
+	}
 	benign := map[string]bool{"strings.TrimSpace": true}
 	for _, spec := range []struct{ callee, what string; arg int }{
 		{pkgSQLProxy + ".authorizeQuery", "the authorized text", 1},
 		{pkgSQLProxy + ".cacheKey", "the cache key text", 0},
 	} {
-		calls := findCalls(hc, spec.callee)
+		calls := famCalls(spec.callee)
 		if len(calls) == 0 {
 			r.unresolved("C37.R1", "handleConn: "+spec.what, "call not found")
 		}
@@ -198,7 +245,11 @@ func checkC37(c *Ctx, r *Report) {
 	// the decision that is consulted comes from the cache for this key or from authorizeQuery
 	{
 		okDec := false
-		for _, b := range hc.Blocks {
+		var famBlocks []*ssa.BasicBlock
+		for _, f := range fam {
+			famBlocks = append(famBlocks, f.Blocks...)
+		}
+		for _, b := range famBlocks {
 			for _, in := range b.Instrs {
 				if st, ok := in.(*ssa.Store); ok {
 					if fa, ok := st.Addr.(*ssa.FieldAddr); ok {
